@@ -153,6 +153,31 @@ def oracle_factory(ctx):
             elif o.ok:
                 return Failure("C09/pointer/value", "isolated parse at %d fails (%r) but Pointer -> %r | %s" % (target, ref, o, where))
             return None
+        if kind == "pointer-stream":
+            # Pointer given another stream (the enclosing one, through this._._io) from inside a Prefixed body: both streams must end
+            # up where they were, so the rest of the body and the field after the region parse as if the Pointer were not there
+            off = extra
+            body = C.Struct("a" / C.Byte, "p" / C.Pointer(off, subs[0], stream=C.this._._io), "after" / C.Tell, "b" / C.Byte)
+            con = C.Struct("hdr" / C.Byte, "body" / C.Prefixed(C.Byte, body), "tail" / C.Byte, "end" / C.Tell)
+            plain = C.Struct("hdr" / C.Byte, "body" / C.Prefixed(C.Byte, C.Struct("a" / C.Byte, "after" / C.Tell, "b" / C.Byte)), "tail" / C.Byte, "end" / C.Tell)
+            o = call(con.parse_stream, s)
+            s2 = io.BytesIO(data)
+            s2.seek(start)
+            ref = call(plain.parse_stream, s2)
+            target = off if off >= 0 else len(data) + off
+            if not ref.ok or target < 0:
+                return None
+            iso_p, _ = iso(specs[0], data, target)
+            if iso_p.ok:
+                if not o.ok:
+                    return Failure("C09/pointer-stream/rejects", "the pointed-to field parses in isolation and the body parses without the Pointer, but with it parse raised %r | %s" % (o, where))
+                if not lib_eq(o.value.body.p, iso_p.value):
+                    return Failure("C09/pointer-stream/value", "Pointer(stream=outer) -> %s, isolated parse at %d -> %s | %s" % (short(o.value.body.p), target, short(iso_p.value), where))
+                got = (o.value.body.a, o.value.body.after, o.value.body.b, o.value.tail, o.value.end, s.tell())
+                want = (ref.value.body.a, ref.value.body.after, ref.value.body.b, ref.value.tail, ref.value.end, s2.tell())
+                if got != want:
+                    return Failure("C09/pointer-stream/position", "fields around a Pointer into another stream parsed as %r, without the Pointer %r (a stream was not put back where it was) | %s" % (got, want, where))
+            return None
         if kind in ("select", "optional"):
             con = C.Select(*subs) if kind == "select" else C.Optional(subs[0])
             o = call(con.parse_stream, s)
@@ -256,10 +281,13 @@ def oracle_factory(ctx):
 
 @st.composite
 def cases(draw):
-    kind = draw(st.sampled_from(["peek", "pointer", "select", "select", "optional", "grange", "grange", "grange-discard", "union"]))
-    specs = draw(members(1, 1 if kind in ("peek", "pointer", "optional", "grange", "grange-discard") else 3))
+    kind = draw(st.sampled_from(["peek", "pointer", "pointer-stream", "select", "select", "optional", "grange", "grange", "grange-discard", "union"]))
+    specs = draw(members(1, 1 if kind in ("peek", "pointer", "pointer-stream", "optional", "grange", "grange-discard") else 3))
     data, start = draw(inputs(specs))
     extra = None
+    if kind == "pointer-stream":
+        data = data[:start] + bytes([draw(st.integers(0, 9)), draw(st.integers(2, 6))]) + data[start:] + b"\x01\x02\x03\x04\x05\x06\x07"
+        extra = draw(st.one_of(st.integers(0, len(data)), st.integers(-len(data), -1)))
     if kind == "pointer":
         extra = draw(st.one_of(st.integers(0, max(0, len(data))), st.integers(-max(1, len(data)), -1)))
     if kind == "union":
